@@ -15,6 +15,7 @@ DECIDED = [
     "ATOMIC-FAIL: on every path to a failure return (AWS_OP_ERR / false / NULL view) no field of a caller-visible object differs from its entry value and no byte was written through a caller's pointer (documented exceptions listed)",
     "KEEP: appending/writing operations write only at offsets >= the buffer's length at entry",
     "GROW-ORDER: dynamic growth copies old contents and the appended bytes before scrubbing and releasing the old block, then installs the new block; the secure variants scrub before release",
+    "CSTR-READ (under BOUND): aws_array_eq_c_str{,_ignore_case} read the NUL-terminated argument at index k only after every byte below k was read and found non-NUL (inside the scan at its counter with a return on NUL, or at the loop bound after the scan completed)",
     "VIEW: every cursor / buffer a function hands out (returned by value, or stored through a cursor/buffer parameter) describes bytes inside one tracked object - 0 <= ptr - base, (ptr - base) + len <= extent(base), for buffers also capacity <= extent of the allocation - and a NULL pointer comes with length 0 (NUM, all lengths; entry views are assumed valid: NULL => empty)",
     "SECURE-ZERO: the zeroing memset is followed by a volatile asm barrier that takes the buffer as operand with a memory clobber",
 ]
@@ -220,6 +221,7 @@ def analyse(ctx, replace=None, only=None):
     R.notes.append("%d accesses through caller-provided raw pointers without a stated extent were not checked" % n_und)
     grow_order(R, P)
     secure_zero(R, P)
+    cstr_scans(R, P)
 
 
 VIEW_MIN = 90
@@ -293,6 +295,69 @@ def _null_means_empty(st):
                             s0.add(Poly.atom(z))
                             s0.add(-Poly.atom(z))
     return s0
+
+
+CSTR_SCANS = {"aws_array_eq_c_str": "c_str", "aws_array_eq_c_str_ignore_case": "c_str"}
+
+
+def cstr_scans(R, P):
+    """CSTR-READ: a NUL-terminated string argument is only known to extend up to its first NUL.  In the functions that compare
+    an array with a C string byte by byte, the string may be read at index k only after every byte below k has been read and
+    found non-NUL: inside the scanning loop at the loop counter (the loop returns as soon as the byte read is NUL), or - at
+    the loop bound - after the loop has run to completion.  Any other read can lie behind the terminator."""
+    n = 0
+    for name, par in sorted(CSTR_SCANS.items()):
+        f = P.fn(name)
+        if not R.require(f is not None, "%s not found" % name):
+            continue
+        alias = {par}
+        for e in f.all_events():
+            if e.kind == "decl":
+                for v in e.node["vars"]:
+                    if v.get("init") is not None and any(x["k"] == "var" and x["n"] in alias for x in f.walk(v["init"], follow_refs=True)) and f.unit.types[v["t"]].get("ptr"):
+                        alias.add(v["n"])
+        loops = Num(f, P, None).loops()
+        dom = dominators(f)
+        sites = []
+        for b in f.blocks.values():
+            for el in list(b.elems) + ([b.cond] if b.cond is not None else []):
+                for x in f.walk(el):
+                    if x["k"] == "index" or (x["k"] == "un" and x["op"] == "deref"):
+                        base = f.d(x["a"][0])
+                        if any(y["k"] == "var" and y["n"] in alias for y in f.walk(base, follow_refs=True)):
+                            sites.append((b.id, el, x))
+        if not R.require(len(loops) == 1 and sites, "%s: expected one scanning loop and reads of %s" % (name, par)):
+            continue
+        (h, body), = loops.items()
+        hc = f.blocks[h].cond
+        t = RU.cmp_norm(f, hc, True) if hc is not None else None
+        counter, bound = (f.show(t[0]), f.show(t[2])) if t and t[1] == "<" and t[2] is not None else (None, None)
+        R.require(counter is not None, "%s: loop condition is not `counter < bound`" % name)
+        for blk, el, x in sites:
+            n += 1
+            idx = f.show(x["a"][1]) if x["k"] == "index" else None
+            inst = "%s:%s" % (name, f.show(x)[:40])
+            if blk in body:
+                # read at the counter, and the value read ends the scan when it is NUL
+                var = None
+                if el["k"] == "decl":
+                    for v in el["vars"]:
+                        if v.get("init") is not None and any(y is x for y in f.walk(v["init"], follow_refs=True)):
+                            var = v["n"]
+                stops = False
+                for r_ in f.returns():
+                    if r_.blk in body or any(s_ in body for s_ in dom.get(r_.blk, ())):
+                        for c_, pol, b_ in RU.guards(f, r_, dom):
+                            g = RU.cmp_norm(f, c_, pol)
+                            if g and g[1] == "==" and f.show(RU.uncast(f, g[0])) == var and (g[2] is None or f.is_const(g[2]) == 0) and b_ in body:
+                                stops = True
+                R.check(idx == counter and var is not None and stops, "BOUND", "cstr-read:" + inst, where(f, x), "read at the loop counter; the scan returns when that byte is NUL",
+                        "inside the scan the string is read at `%s` (counter `%s`) or the scan does not stop at a NUL byte: bytes behind the terminator can be read" % (idx, counter))
+            else:
+                after = h in dom.get(blk, ()) and blk not in body
+                R.check(after and idx == bound, "BOUND", "cstr-read:" + inst, where(f, x), "read at the loop bound after the scan found every earlier byte non-NUL",
+                        "the string is read at `%s` without the scan having established that the %s earlier bytes are non-NUL (%s): when the string is shorter than the array this reads behind its terminator" % (idx, bound, "before the loop" if not after else "index is not the loop bound"))
+    R.require(n >= 4, "only %d C-string reads analysed" % n)
 
 
 def _atoms_of(s):
@@ -397,6 +462,9 @@ def secure_zero(R, P):
 
 
 MUTANTS = [
+    {"name": "c-str-terminator-read-first", "file": BB, "expect": "BOUND",
+     "old": "    const uint8_t *str_bytes = (const uint8_t *)c_str;\n\n    for (size_t i = 0; i < array_len; ++i) {\n        uint8_t s = str_bytes[i];\n        if (s == '\\0') {\n            return false;\n        }\n\n        if (array_bytes[i] != s) {",
+     "new": "    const uint8_t *str_bytes = (const uint8_t *)c_str;\n\n    if (str_bytes[array_len] != '\\0') {\n        return false;\n    }\n    for (size_t i = 0; i < array_len; ++i) {\n        uint8_t s = str_bytes[i];\n        if (s == '\\0') {\n            return false;\n        }\n\n        if (array_bytes[i] != s) {"},
     {"name": "copy-allocates-len-keeps-capacity", "file": BB, "expect": "VIEW",
      "old": "    dest->buffer = (uint8_t *)aws_mem_acquire(allocator, src->capacity);", "new": "    dest->buffer = (uint8_t *)aws_mem_acquire(allocator, src->len > 0 ? src->len : src->capacity);"},
     {"name": "right-trim-counts-from-capacity", "file": BB, "expect": "VIEW",
